@@ -102,8 +102,15 @@ func (rw *RollingWindow[T, B]) updateOffset() {
 	}
 
 	rw.offset = (offset + span) % rw.size
+	if span < rw.size {
+		// advance by exactly the intervals whose buckets were reset; reading the clock
+		// again here could skip an interval that elapsed since span was computed.
+		rw.lastTime += time.Duration(span) * rw.interval
+		return
+	}
+
+	// all the buckets were reset, align to interval time boundary
 	now := timex.Now()
-	// align to interval time boundary
 	rw.lastTime = now - (now-rw.lastTime)%rw.interval
 }
 
